@@ -820,9 +820,13 @@ impl ErasedNode for Node {
             before computing it.  If [parent] has a single child (i.e. [node]), then
             this amounts to checking that [parent] won't be invalidated, i.e. that
             [parent]'s scope has already stabilized. */
-            Kind::BindLhsChange { .. } => child.height() > parent.created_in.height(),
-            Kind::MapRef(_) | Kind::MapWithOld(_) | Kind::Map(_) => {
-                child.height() > parent.created_in.height()
+            /* The height test alone is only sound if nodes run in height order, but chains of
+            direct recomputation climb past pending lower nodes.  So also require that nothing at
+            or below the scope's height is still waiting in the recompute heap, otherwise the
+            bind that created [parent] may be about to re-run and invalidate it. */
+            Kind::BindLhsChange { .. } | Kind::MapRef(_) | Kind::MapWithOld(_) | Kind::Map(_) => {
+                let scope_height = parent.created_in.height();
+                child.height() > scope_height && state.recompute_heap.min_height() > scope_height
             }
             // | Freeze _ -> node.height > Scope.height parent.created_in
             // | If_test_change _ -> node.height > Scope.height parent.created_in
@@ -835,7 +839,11 @@ impl ErasedNode for Node {
             {[
             node.height > Scope.height parent.created_in
             ]} */
-            Kind::BindMain { lhs_change, .. } => child.height() > lhs_change.height(),
+            Kind::BindMain { lhs_change, .. } => {
+                let lhs_change_height = lhs_change.height();
+                child.height() > lhs_change_height
+                    && state.recompute_heap.min_height() > lhs_change_height
+            }
             // | Kind::If_then_else i -> node.height > i.test_change.height
             // | Join_main j -> node.height > j.lhs_change.height
         };
